@@ -4245,6 +4245,7 @@ pub fn to_c_ident(name: &str) -> String {
         "register" => "register_".into(),
         "reinterpret_cast" => "reinterpret_cast_".into(),
         "requires" => "requires_".into(),
+        "restrict" => "restrict_".into(),
         "return" => "return_".into(),
         "short" => "short_".into(),
         "signed" => "signed_".into(),
@@ -4264,6 +4265,8 @@ pub fn to_c_ident(name: &str) -> String {
         "typedef" => "typedef_".into(),
         "typeid" => "typeid_".into(),
         "typename" => "typename_".into(),
+        "typeof" => "typeof_".into(),
+        "typeof_unqual" => "typeof_unqual_".into(),
         "union" => "union_".into(),
         "unsigned" => "unsigned_".into(),
         "using" => "using_".into(),
